@@ -6,7 +6,7 @@ PROPS = ('C01',)
 
 
 def run(ctx):
-    ctx.rule = ('V: random edit histories (every list-valued/optional/single field reachable x index class x code form '
+    ctx.rule = ('G: TLC-generated request table (ContainersGen) replayed on 39 container templates. V: random edit histories (every list-valued/optional/single field reachable x index class x code form '
                 '{source, AST, FST} x entry point x option set, pars in {auto, True}, norm in {default, True}) on 40 '
                 'corpus programs x 8 layout variants; after every step TLC evaluates Sync (pid of live tree = pid of '
                 'ast.parse(source): types, values, ctx, all four positions of every node) and RootIdentity. '
@@ -15,7 +15,8 @@ def run(ctx):
                         'domain: pars not False; request valid (pure-AST surgery unparses and re-parses); result '
                         'respects grammar minimum lengths unless norm=True; f-string internals and raw mode excluded']
     ctx.model('ContainersMC', 'ContainersMC', required=('DoPutSlice', 'DoPutOne', 'DoDelOne'))
-    n_hist, n_steps = (1600, 10) if ctx.quick else (32000, 25)
+    editcheck.run_sweep(ctx, per_template=20 if ctx.quick else 0, n_arg=150 if ctx.quick else 0, props=PROPS)
+    n_hist, n_steps = (1300, 10) if ctx.quick else (32000, 25)
     specs = editcheck.history_specs(ctx, n_hist, n_steps)
     res = editcheck.generate(ctx, specs, mode='valid')
     val = editcheck.validate_all(ctx, res)
